@@ -101,3 +101,24 @@ VALUE_PROGRAMS = [
     "main:\n    la t0, handler\n    csrrw zero, 5, t0\n    li a7, 10\n    ecall\nhandler:\n    csrrw t0, 64, t0\n    addi t0, t0, 1\n    csrrw t0, 64, t0\n    uret\n",
     "main:\n    lui t0, 0x80000\n    addi t0, t0, -1\n    slli t1, t0, 1\n    srai t2, t1, 31\n    mulh t3, t0, t0\n    li a7, 10\n    ecall\n",
 ]
+
+# loops, irreducible flow, recursion, many call sites (C12 / C06)
+LOOP_PROGRAMS = [
+    open("/verif/notes/hang-available-values.s").read() if __import__("os").path.exists("/verif/notes/hang-available-values.s") else "",
+    open("/verif/notes/hang-liveness-shared-return.s").read() if __import__("os").path.exists("/verif/notes/hang-liveness-shared-return.s") else "",
+    "main:\n    li t0, 0\n    li t1, 10\nouter:\n    li t2, 0\ninner:\n    addi t2, t2, 1\n    blt t2, t1, inner\n    addi t0, t0, 1\n    blt t0, t1, outer\n    li a7, 10\n    ecall\n",
+    "main:\n    beqz a0, second\nfirst:\n    addi a0, a0, -1\n    j check\nsecond:\n    addi a0, a0, 1\ncheck:\n    bgtz a0, first\n    bltz a0, second\n    li a7, 10\n    ecall\n",
+    "main:\n    j body\nhead:\n    addi s0, s0, 1\nbody:\n    li t0, 5\n    blt s0, t0, head\n    li a7, 10\n    ecall\n",
+    "main:\n    li a0, 4\n    call f\n    call f\n    call g\n    call f\n    li a7, 10\n    ecall\nf:\n    addi sp, sp, -4\n    sw ra, 0(sp)\n    call g\n    lw ra, 0(sp)\n    addi sp, sp, 4\n    ret\ng:\n    addi a0, a0, 1\n    ret\n",
+]
+LOOP_PROGRAMS = [p for p in LOOP_PROGRAMS if p]
+
+# programs whose output is sensitive to hash iteration order (C10)
+ORDER_PROGRAMS = [
+    open("/verif/notes/hang-liveness-shared-return.s").read() if __import__("os").path.exists("/verif/notes/hang-liveness-shared-return.s") else "",
+    "main:\n    call fa\n    call fb\n    li a7, 10\n    ecall\nfa:\n    addi a0, a0, 1\nfb:\nfb2:\n    li s1, 1\n    li s2, 2\n    addi a0, a0, 2\n    ret\n",
+    "main:\n    mv t0, a0\n    beqz t0, K\n    call F\n    sw t0, -4(sp)\nK:\n    sw t0, 0(sp)\n    li a7, 10\n    ecall\nF:\n    li a0, 1\n    ret\n",
+    "main:\n    j A\nX:\n    j Y\nA:\n    j X\nY:\n    j Zz\nundefined_use:\n    j nowhere1\n    j nowhere2\nZz:\n    ret\n",
+    "main:\n    call f\n    li a7, 10\n    ecall\nf:\n    beqz a0, r2\n    li a0, 1\n    ret\nr2:\n    li a0, 2\n    mv a1, t3\n    ret\n",
+]
+ORDER_PROGRAMS = [p for p in ORDER_PROGRAMS if p]
